@@ -176,9 +176,11 @@ fn run_sender_blocking(s: &dyn IoShape, cap: CapSpec, seq: &[Value], kind: Kind,
                     Next::Skip
                 }
                 _ => {
-                    // a sender that reported an error after partial progress may refuse further use (clause e)
+                    // a sender that reported an error after partial progress may refuse further use in any
+                    // way (clause e), but nothing it does may put more bytes behind the partial message:
+                    // go on with the next message and let the sink-shape oracle judge
                     if len != prev {
-                        return Next::Stop;
+                        return Next::Skip;
                     }
                     fails.set(fails.get() + 1);
                     if fails.get() >= GIVE_UP {
@@ -438,7 +440,7 @@ fn run_async(s: &dyn IoShape, cap: CapSpec, seq: &[Value], pipe_cap: usize, spur
                 }
                 _ => {
                     if acc != prev {
-                        return Next::Stop;
+                        return Next::Skip;
                     }
                     fails.set(fails.get() + 1);
                     if fails.get() >= GIVE_UP {
